@@ -195,6 +195,28 @@ func main() {
 			run.NonTrivial("positive signer=ca-without-keyusage")
 		}
 	}
+	if run.Thorough() {
+		for _, ca := range []*pki.CA{ecInt, rsaInt} {
+			for _, n := range []int{0, 25, 120} {
+				s := mkSpec(ca, crlgen.AlgFor(ca.Key), "both", n)
+				for i := range s.Entries {
+					if i%3 == 0 {
+						s.Entries[i].Exts = append(s.Entries[i].Exts, crlgen.InvalidityExt(gen.BaseTime))
+					}
+				}
+				b := s.Build(ca.Key)
+				desc := fmt.Sprintf("positive(thorough) signer=issuer-in-chain(%s) n=%d aki=both", ca.Cert.Subject.CommonName, n)
+				ok, why := l.inForce(b.DER, ca, root)
+				run.Eval(1)
+				if !ok {
+					run.Violation("positive-control.thorough-parent", desc+" did not come into force: "+why, nil)
+					continue
+				}
+				positives++
+				parents = append(parents, parent{desc: desc, spec: s, ca: ca, above: []*pki.CA{root}, issuer: ca})
+			}
+		}
+	}
 	run.Count("positive_controls_in_force", int64(positives))
 
 	neg := func(class, desc string, doc []byte, issuer *pki.CA, above ...*pki.CA) {
@@ -296,8 +318,12 @@ func main() {
 		name     string
 		off, len int
 	}
-	job := 0
 	for pi, p := range parents {
+		// a parent document (signatures are randomised, so its bytes exist only in this process)
+		// belongs to exactly one worker, which flips every bit of it
+		if pi%sn != si {
+			continue
+		}
 		full := false
 		// quick: flip every bit of one ECDSA and one RSA parent, sample the others
 		if p.spec.Alg.Name == "ecdsaWithSHA256" && p.ca == ecInt && pi%2 == 0 {
@@ -306,9 +332,9 @@ func main() {
 		if p.spec.Alg.Name == "sha256WithRSA" && pi%2 == 0 {
 			full = true
 		}
-		if run.Thorough() {
-			full = true
-		}
+		// a complete flip of every parent costs ~30 s on 10 worker processes: do it in both tiers;
+		// thorough adds bigger parents (more entries, entry extensions) below
+		full = true
 		b := p.spec.Build(p.ca.Key)
 		tree, err := der.Parse(b.DER)
 		if err != nil {
@@ -336,10 +362,6 @@ func main() {
 				}
 			}
 			for _, bit := range bits {
-				job++
-				if job%sn != si {
-					continue
-				}
 				m := append([]byte(nil), b.DER...)
 				m[rg.off+bit/8] ^= 1 << uint(7-bit%8)
 				desc := fmt.Sprintf("bit flip parent=[%s] region=%s bit=%d", p.desc, rg.name, bit)
@@ -357,8 +379,7 @@ func main() {
 		var nodes []*der.Node
 		tree.Walk(func(n *der.Node) { nodes = append(nodes, n) })
 		for _, n := range nodes {
-			job++
-			if job%sn != si || n == tree {
+			if n == tree {
 				continue
 			}
 			for _, kind := range []string{"insert", "delete"} {
